@@ -639,5 +639,34 @@ Proof.
   simpl hfs. apply crash_from_render. { apply SI. } apply sprims_in; auto.
 Qed.
 
+
+Lemma scrash_in ps : forall s x, keys_in s -> dirs_nodup s -> Forall prim_in ps -> In x (scrash_from s ps) -> keys_in x /\ dirs_nodup x.
+Proof.
+  induction ps as [|p ps IH]; intros s x KI N F IN; simpl in IN.
+  - destruct IN as [IN|[]]. subst. auto.
+  - inversion F; subst. destruct IN as [IN|IN]. { subst. auto. }
+    apply in_app_or in IN. destruct IN as [IN|IN].
+    + apply in_map_iff in IN. destruct IN as [q [E Iq]]. subst x.
+      pose proof (storn_in p H1) as T. rewrite Forall_forall in T. split.
+      * apply keys_in_run_sprim; auto.
+      * apply dirs_nodup_run_sprim; auto.
+    + apply (IH (run_sprim s p)); auto. apply keys_in_run_sprim; auto. apply dirs_nodup_run_sprim; auto.
+Qed.
+
+(* a fresh process asking the three queries on the rendering of a structured store is answered as on the structured store *)
+Lemma fresh_answers_render s d : keys_in s -> dirs_nodup s -> In d D ->
+  (forall req, q_find loc dirhash (render_fs s) d req = render_fres (sq_find rname rpath s d req))
+  /\ (forall day, pk_in (PLatest day) -> snd (q_latest loc dirhash [] (render_fs s) d day) = snd (sq_latest rname [] s d day))
+  /\ (forall n, snd (q_recent loc dirhash [] (render_fs s) d n) = snd (sq_recent rname [] s d n)).
+Proof.
+  intros KI N Id. assert (CI : cache_in []) by (intros e []).
+  split; [|split].
+  - intros req. apply q_find_render; auto.
+  - intros day Pd. destruct (q_latest_render [] s d day KI N CI Id Pd) as [E _]. change (@nil (string * string * centry)) with (render_cache []).
+    rewrite E. reflexivity.
+  - intros n. destruct (q_recent_render [] s d n KI N CI Id) as [E _]. change (@nil (string * string * centry)) with (render_cache []).
+    rewrite E. reflexivity.
+Qed.
+
 End U.
 End R.
